@@ -138,7 +138,13 @@ func (l *listener) Addr() net.Addr { return &net.UnixAddr{Name: l.path, Net: "un
 
 func (l *listener) Accept() (net.Conn, error) {
 	g := simrt.CurG()
-	simrt.Syscall("accept", l.path, 0)
+	if flt := simrt.Syscall("accept", l.path, 0); flt.Kind == simrt.FErr {
+		// a transient accept(2) failure (EMFILE, ENFILE, ECONNABORTED): the listener itself stays usable
+		if w := simrt.Current(); w != nil {
+			w.CountFault("accept_error")
+		}
+		return nil, &net.OpError{Op: "accept", Net: "unix", Addr: l.Addr(), Err: flt.Errno}
+	}
 	for {
 		simrt.Big.Lock()
 		if l.closed {
